@@ -7,6 +7,12 @@ HERE = os.path.dirname(os.path.dirname(os.path.abspath(__file__)))
 
 # id -> (level category, technique, level text, level note, design ref)
 CHECKS = {
+ "C17": ("exploration",
+  "real-consumer monitor: yq's @sh / -o=shell text is executed by dash and bash (strace execve watch + canary) and parsed by an independent POSIX word parser",
+  "Each generated hostile string / document goes through the real encoder (library and binary); the shells must see exactly one word / exactly the "
+  "generated variables with exactly the generated text, execute nothing and create no canary. Held on the strings generated, not a proof over all strings.",
+  "Trusts dash, bash and strace; NUL-free valid UTF-8 only; names the shell treats specially are checked syntactically only.",
+  "DESIGN.md §5 C17"),
  "C11": ("exploration",
   "recover()/journal/CPU-watchdog monitor over seeded expression x input x format fuzz workloads, plus a -race/checkptr slice",
   "Every case runs the real parser, decoders, operators, printer and encoders in a child worker; a recovered panic, a fatal runtime "
